@@ -394,7 +394,7 @@ RULES = [
 from . import folds as _folds
 RULES = RULES + [_folds.fold_rule('C11')]
 from . import shared as _shared
-RULES = RULES + _shared.bundle('C11', ['carry', 'restart', 'driver', 'loops'])
+RULES = RULES + _shared.bundle('C11', ['drivers', 'gpu', 'carry', 'restart', 'driver', 'loops'])
 from .. import refs as _refs
 RULES = RULES + [_refs.ref_rule('C11')]
 
